@@ -610,4 +610,57 @@ theorem C09_merge_succeeds_iff_counterexample :
   refine ⟨by decide, ?_⟩
   intro n v w _ h; simp [lookup] at h
 
+/-- the entries of a successful `merge` are EXACTLY the entries of its arguments (as sets of pairs): nothing invented, nothing lost -/
+theorem C09_merge_entries : ∀ (τ σ ρ : Subst), merge σ τ = some ρ → ∀ p, p ∈ ρ ↔ (p ∈ σ ∨ p ∈ τ)
+  | [], σ, ρ, h => by simp [merge] at h; subst h; simp
+  | (n, v) :: rest, σ, ρ, h => by
+      intro p
+      simp only [merge] at h
+      cases hl : lookup σ n with
+      | some v' =>
+        rw [hl] at h; simp only at h
+        by_cases hv : v = v'
+        · simp only [hv, if_true] at h
+          rw [C09_merge_entries rest σ ρ h p]
+          subst hv
+          have hm : (n, v) ∈ σ := lookup_mem σ n v hl
+          constructor
+          · rintro (h1 | h1)
+            · exact Or.inl h1
+            · exact Or.inr (List.mem_cons_of_mem _ h1)
+          · rintro (h1 | h1)
+            · exact Or.inl h1
+            · rcases List.mem_cons.1 h1 with h1 | h1
+              · exact Or.inl (h1 ▸ hm)
+              · exact Or.inr h1
+        · simp only [hv, if_false] at h; cases h
+      | none =>
+        rw [hl] at h; simp only at h
+        rw [C09_merge_entries rest (σ ++ [(n, v)]) ρ h p]
+        simp only [List.mem_append, List.mem_cons, List.not_mem_nil, or_false]
+        constructor
+        · rintro ((h1 | h1) | h1)
+          · exact Or.inl h1
+          · exact Or.inr (Or.inl h1)
+          · exact Or.inr (Or.inr h1)
+        · rintro (h1 | h1 | h1)
+          · exact Or.inl (Or.inl h1)
+          · exact Or.inl (Or.inr h1)
+          · exact Or.inr h1
+
+/-- hence a merged substitution is the identity (`Substitutions::is_eq`, the test behind "qualified-self types only match under
+    the identity substitution") exactly when both parts are -/
+theorem C09_merge_allIdentity (σ τ ρ : Subst) (h : merge σ τ = some ρ) :
+    allIdentity ρ = (allIdentity σ && allIdentity τ) := by
+  have he := C09_merge_entries τ σ ρ h
+  rw [Bool.eq_iff_iff]
+  simp only [allIdentity, Bool.and_eq_true, List.all_eq_true]
+  constructor
+  · intro hr
+    exact ⟨fun p hp => hr p ((he p).2 (Or.inl hp)), fun p hp => hr p ((he p).2 (Or.inr hp))⟩
+  · rintro ⟨h1, h2⟩ p hp
+    rcases (he p).1 hp with hp | hp
+    · exact h1 p hp
+    · exact h2 p hp
+
 end DI
